@@ -81,6 +81,19 @@ CHECKS['C01'] = dict(
     technique='TLA+ operational semantics as oracle, TLC enumerates all executions, each replayed into the converted function',
     design_ref='DESIGN.md sections 3.1, 4, 5 (C01)', engine='tlc-minipy')
 
+CHECKS['C03'] = dict(
+    text='spec/OpContract.tla models the operator calling contract as a store of the calling frame with actions Eval (symbol '
+         'names evaluated in the frame), Get (get_state) and Set (set_state). During the replay of every MiniPy execution into '
+         'the converted function, every dynamic if_stmt/while_stmt/for_stmt invocation is intercepted and an 11-step probe '
+         'sequence is performed on the LIVE frame (read, write back, write sentinels, read, restore); TLC validates every '
+         'recorded probe trace against the contract (total verdict naming the violated law) together with the static clauses '
+         '(tuple lengths, callback arities, nouts bounds, iterate_names).',
+    note='Probes run before the real operator and restore the state they found; traces are de-duplicated by content. The '
+         'directive-content clause (opts carry exactly the user directives of that loop) is not yet generated. Program class '
+         'and bounds as C01.',
+    technique='TLA+ contract state machine, trace validation by TLC of probe traces recorded from real generated code',
+    design_ref='DESIGN.md sections 3.5 (OpContract), 5 (C03)', engine='tlc-opcontract')
+
 NOT_CLAIMED = {}
 
 
